@@ -88,7 +88,8 @@ func isNonFatalConfig(
 	for _, combination := range combinations {
 		distribution := divider(combination, quantity, nil)
 
-		if !common.IsDistributionFilled(distribution) {
+		if !common.IsDistributionFilled(distribution) ||
+			!common.IsDistributionFilledFor(combination, distribution) {
 			return false
 		}
 	}
@@ -197,7 +198,8 @@ func isSuitableConfig(
 	for _, combination := range combinations {
 		distribution := divider(combination, quantity, nil)
 
-		if !common.IsDistributionFilled(distribution) {
+		if !common.IsDistributionFilled(distribution) ||
+			!common.IsDistributionFilledFor(combination, distribution) {
 			return false
 		}
 
